@@ -5,7 +5,7 @@ wt="$1"
 while read -r letter prop; do
     [ -z "$letter" ] && continue
     n=$(ls -d /verif/seeded/$prop-* 2>/dev/null | wc -l)
-    dst=$(echo ABCDEFGHIJKLMNOP | cut -c$((n+1)))
+    dst=$(echo ABCDEFGHIJKLMNOPQRSTUVWXYZ | cut -c$((n+1)))
     /verif/tools/intake.sh "$wt" "$prop" "$letter" "$dst"
     [ -d /verif/seeded/$prop-$dst ] && echo "$(basename $wt) $letter" > /verif/seeded/$prop-$dst/origin.txt
 done < "$wt/seed_out/props.txt"
